@@ -54,8 +54,10 @@ func boolInput(id run.CaseID) (subj, clp Paths) {
 	switch id.Family {
 	case "rand-dense":
 		subj, clp, _ = gen.RandDense(r)
-	case "rand-wide":
-		subj, clp, _ = gen.RandWide(r)
+	case "rand-wide": // fresh: magnitudes 10^6 .. 2^29 (generic position)
+		subj, clp, _ = gen.RandWideR(r, []int64{1000000, 1 << 20, 1 << 26, 1 << 29})
+	case "rand-mid": // closed pool: +-10^4, where near-coincidences of random edges are still frequent enough to meet engine defects
+		subj, clp, _ = gen.RandWideR(r, []int64{10000})
 	case "lattice":
 		subj, clp, _ = gen.Lattice(r)
 	case "rectilinear":
@@ -67,17 +69,23 @@ func boolInput(id run.CaseID) (subj, clp Paths) {
 			clp, _ = gen.Nested(r, 1+r.Intn(2), 4, R*r.FloatRange(0.5, 1.2), r.Chance(0.7), false)
 			clp = gen.Translate(clp, int64(r.FloatRange(-0.5, 0.5)*R), int64(r.FloatRange(-0.5, 0.5)*R))
 		}
-	case "degenerate":
-		subj, clp = gen.Degenerate(r)
+	case "degenerate", "degenerate-wide":
+		if id.Family == "degenerate" {
+			subj, clp = gen.Degenerate(r)
+		} else {
+			subj, clp = gen.DegenerateR(r, []int64{1000, 1 << 20, 1 << 28})
+		}
 		if subj == nil {
 			subj = Paths{}
 		}
 	case "near-degenerate":
 		subj, clp = gen.NearDegenerate(r)
 	case "big-n":
-		subj, clp = gen.BigN(r, 200, 1500)
+		subj, clp = gen.BigNR(r, 200, 1500, []int64{1000000, 1 << 27})
+	case "big-n-mid": // closed pool
+		subj, clp = gen.BigNR(r, 200, 1500, []int64{20000})
 	case "big-n-xl":
-		subj, clp = gen.BigN(r, 1500, 5000)
+		subj, clp = gen.BigNR(r, 1500, 5000, []int64{1000000, 1 << 27})
 	default:
 		panic("unknown family " + id.Family)
 	}
